@@ -173,6 +173,20 @@ def run(ctx):
             if why:
                 ctx.violation('certificate: ' + why, {'stream': 'audit', 'inst': inst, 'settings': s, 'direction': direction})
                 break
+        if not ctx.violations:
+            # the same exponents and settings with "-gamma" at one index and positive constants elsewhere, gamma maximised
+            m_ = len(inst['alpha'])
+            for i in range(m_):
+                var = dict(inst, nuser=1, c=[{'off': common.frac_str(F(rng.choice([1, 100, 2]), rng.choice([1, 100]))), 'co': []} for _ in range(m_)])
+                var['c'][i] = {'off': '0', 'co': [[0, '-1']]}
+                try:
+                    why = audit_instance(ctx, rng, var, s, [-1.0])
+                except Exception:  # noqa: BLE001
+                    continue
+                ctx.count('stream:audit-targeted')
+                if why:
+                    ctx.violation('certificate: ' + why, {'stream': 'audit', 'inst': var, 'settings': s, 'direction': [-1.0]})
+                    break
         if len(ctx.violations) >= 3:
             break
     # audit stream
